@@ -6,7 +6,7 @@ import ast
 from sa.astx import call_attr, call_name, dotted, src, statements
 from sa.selftest import Mutant, Silent
 from sa.source import class_assigns, methods
-from sa.props._lib_h import (assigned_pairs, call_nodes, calls_at, const_is, edge_path, is_attr, need, reaching_defs, stmts,
+from sa.props._lib_h import (Normaliser, assigned_pairs, call_nodes, calls_at, const_is, edge_path, is_attr, need, reaching_defs, stmts,
                               succ_on, tests)
 
 PROPERTY = "C39"
@@ -82,6 +82,13 @@ def check(ctx):
     mod = ctx.mod(TELNET)
     cls = ctx.cls(TELNET, "Telnet")
     meths = methods(cls)
+    # rules read a normalised view of each method: private helpers a refactor may introduce (_takeResult, _failPending,
+    # _sendCommand ...) expanded at their call sites, named temporaries (ours = optionState.us, handler = self.willMap[k]) substituted
+    KNOWN = set(SENDS) | {"_write", "getOptionState", "enableLocal", "enableRemote", "disableLocal", "disableRemote", "applicationDataReceived",
+                          "commandReceived", "negotiate", "unhandledCommand", "unhandledSubnegotiation", "requestNegotiation", "connectionLost",
+                          "dataReceived"} | set(REQUESTERS) | {d for d, _, _ in MAPS.values()}
+    norm = Normaliser(mod, ["Telnet", "TelnetTransport"], KNOWN)
+    V = norm.view
     cassign = class_assigns(cls)
     handler_fns = {}        # function name -> (map, key)
 
@@ -115,7 +122,7 @@ def check(ctx):
             ctx.check(not extra, "table/exhaustive", f"{Q}{mname} | extra keys", f"{mname} has keys outside {{no,yes}}x{{False,True}}: {sorted(extra, key=str)}")
 
             # dispatcher
-            f = ctx.func(TELNET, f"Telnet.{disp}")
+            f = V(ctx.func(TELNET, f"Telnet.{disp}"))
             qd = Q + disp
             subs = [n for n in ast.walk(f) if isinstance(n, ast.Subscript) and isinstance(n.value, ast.Attribute) and n.value.attr.endswith("Map")
                     and dotted(n.value.value) == "self"]
@@ -151,7 +158,7 @@ def check(ctx):
                       f"commandMap[{cmd}] is {got.get(cmd)!r}, not self.{disp}: received {cmd} commands reach the wrong table (or none)")
     for snd in SENDS:
         with ctx.section(f"senders/{snd}"):
-            f = ctx.func(TELNET, f"Telnet.{snd}")
+            f = V(ctx.func(TELNET, f"Telnet.{snd}"))
             ws = [c for c in ast.walk(f) if isinstance(c, ast.Call) and _raw_write(c)]
             good = len(ws) == 1 and len(ws[0].args) == 1 and src(ws[0].args[0]) == f"IAC + {snd[1:].upper()} + {f.args.args[1].arg}"
             ctx.check(good, "send/command-byte", Q + snd, f"{snd} does not write exactly IAC + {snd[1:].upper()} + option")
@@ -172,7 +179,7 @@ def check(ctx):
             row = ROWS[mname][key]
             persp = MAPS[mname][1]
             other = "us" if persp == "him" else "him"
-            f = meths[fname]
+            f = V(meths[fname])
             ctx.functions.add(f"{TELNET}:Telnet.{fname}")
             g = ctx.cfg(f)
             q = Q + fname
@@ -206,8 +213,11 @@ def check(ctx):
                 detach = [n for n, fld, v in mine if fld == "onResult" and const_is(v, None)]
                 swrites = [(n, v) for n, fld, v in mine if fld == "state"]
                 # local(s) holding the detached Deferred
-                dvars = {t.id for st in statements(f) if isinstance(st, ast.Assign) and is_attr(st.value, f"{sv}.{persp}", "onResult")
-                         for t in st.targets if isinstance(t, ast.Name)}
+                dvars = {t.id for st in statements(f) if isinstance(st, ast.Assign) for t, v in assigned_pairs(st)
+                         if isinstance(t, ast.Name) and v is not None and is_attr(v, f"{sv}.{persp}", "onResult")}
+                for _ in range(3):      # names that only rename the detached Deferred
+                    dvars |= {t.id for st in statements(f) if isinstance(st, ast.Assign) for t, v in assigned_pairs(st)
+                              if isinstance(t, ast.Name) and isinstance(v, ast.Name) and v.id in dvars}
                 def is_fire(c, any_kind=True):
                     if not (isinstance(c.func, ast.Attribute) and c.func.attr in ("callback", "errback")):
                         return False
@@ -311,7 +321,7 @@ def check(ctx):
 
     for name, (persp, pointless, snd, exc_name) in REQUESTERS.items():
         with ctx.section(f"requesters/{name}"):
-            f = ctx.func(TELNET, f"Telnet.{name}")
+            f = V(ctx.func(TELNET, f"Telnet.{name}"))
             g = ctx.cfg(f)
             q = Q + name
             opt = f.args.args[1].arg
@@ -403,7 +413,7 @@ def check(ctx):
                               f"a pointless request does not fail with {exc_name}", witness=g.describe(bad))
 
     with ctx.section('drain/connectionLost'):
-        f = ctx.func(TELNET, "Telnet.connectionLost")
+        f = V(ctx.func(TELNET, "Telnet.connectionLost"))
         g = ctx.cfg(f)
         q = Q + "connectionLost"
         loops = [n for n in g.ids(lambda n: n.kind == "for") if src(g.node(n).ast.iter) in ("self.options.values()", "list(self.options.values())")
@@ -439,9 +449,16 @@ def check(ctx):
                 ctx.check(bool(resets) and w is None, "drain/detach-then-fire", c,
                           f"{lv}.{pp}.onResult is still set when its Deferred is errbacked: an errback that re-enters (or a second connectionLost) "
                           "fires it again (AlreadyCalledError)", witness=g.describe(w))
-                nn = tests(g, lambda e: isinstance(e, ast.Compare) and is_attr(e.left, f"{lv}.{pp}", "onResult") and isinstance(e.ops[0], ast.IsNot)
-                           and const_is(e.comparators[0], None))
-                ok = bool(nn) and edge_path(g, loops, [dn], avoid_edges=[(t, "T") for t in nn], strict=True) is None
+                def pending_edges():
+                    out = []
+                    for t in g.ids(lambda n: n.kind == "test"):
+                        e = g.node(t).ast
+                        if isinstance(e, ast.Compare) and len(e.ops) == 1 and const_is(e.comparators[0], None) and isinstance(e.ops[0], (ast.Is, ast.IsNot)) \
+                                and (is_attr(e.left, f"{lv}.{pp}", "onResult") or (isinstance(e.left, ast.Name) and e.left.id == recv.id)):
+                            out.append((t, "T" if isinstance(e.ops[0], ast.IsNot) else "F"))
+                    return out
+                pe = pending_edges()
+                ok = bool(pe) and edge_path(g, loops, [fn_], avoid_edges=pe, strict=True) is None
                 ctx.check(ok, "drain/only-pending", c, f"errback is attempted although {lv}.{pp}.onResult may be None")
         for pp in ("us", "him"):
             ctx.check(pp in drained, "drain/both-perspectives", q + f" | {pp}",
@@ -461,9 +478,14 @@ def check(ctx):
         n_w = 0
         for qual, fn in mod.functions():
             parts = qual.split(".")
-            in_allowed = len(parts) == 2 and parts[0] == "Telnet" and parts[1] in allowed
+            in_allowed = len(parts) == 2 and parts[0] == "Telnet" and norm.permitted(parts[1], allowed)
             for st in statements(fn):
-                for p, fld, v in _field_write(st):
+                direct = _field_write(st)
+                via_param = [("?", t.attr, None) for t in (st.targets if isinstance(st, ast.Assign) else [getattr(st, "target", None)])
+                             for t in (t.elts if isinstance(t, (ast.Tuple, ast.List)) else [t])
+                             if isinstance(t, ast.Attribute) and t.attr in ("negotiating", "onResult") and isinstance(t.value, ast.Name) and t.value.id != "self"] \
+                    if isinstance(st, (ast.Assign, ast.AugAssign)) else []
+                for p, fld, v in direct + via_param:
                     n_w += 1
                     if not in_allowed:
                         ctx.check(False, "who-may-write/negotiation-fields", ctx.construct("twisted.conch.telnet." + qual, st),
@@ -564,6 +586,15 @@ MUTANTS = [
     Mutant("transport-skips-drain", T, "        Telnet.connectionLost(self, reason)\n        if self.protocol is not None:", "        if self.protocol is not None:"),
 ]
 SILENT = [
+    Silent("requester-named-perspective-and-split-assignment", T, "    def dont(self, option):\n        s = self.getOptionState(option)\n        if s.us.negotiating or s.him.negotiating:\n            return defer.fail(AlreadyNegotiating(option))\n        elif s.him.state == \"no\":\n            return defer.fail(AlreadyDisabled(option))\n        else:\n            s.him.negotiating = True\n            s.him.onResult = d = defer.Deferred()\n            self._dont(option)\n            return d\n",
+           "    def dont(self, option):\n        entry = self.getOptionState(option)\n        peer = entry.him\n        if entry.us.negotiating or peer.negotiating:\n            return defer.fail(AlreadyNegotiating(option))\n        if peer.state == \"no\":\n            return defer.fail(AlreadyDisabled(option))\n        peer.negotiating = True\n        waiting = defer.Deferred()\n        peer.onResult = waiting\n        self._dont(option)\n        return waiting\n"),
+    Silent("detach-triple-in-private-helper", T, "        state.us.state = \"yes\"\n        state.us.negotiating = False\n        d = state.us.onResult\n        state.us.onResult = None\n        d.callback(True)\n        self.enableLocal(option)\n",
+           "        state.us.state = \"yes\"\n        self._finished(state.us).callback(True)\n        self.enableLocal(option)\n",
+           more=[(T, "    def telnet_WILL(self, option):\n", "    def _finished(self, side):\n        side.negotiating = False\n        waiting = side.onResult\n        side.onResult = None\n        return waiting\n\n    def telnet_WILL(self, option):\n")]),
+    Silent("dispatcher-named-handler", T, "        s = self.getOptionState(option)\n        self.dontMap[s.us.state, s.us.negotiating](self, s, option)", "        entry = self.getOptionState(option)\n        mine = entry.us\n        row = self.dontMap[mine.state, mine.negotiating]\n        row(self, entry, option)"),
+    Silent("senders-through-one-helper", T, "    def _do(self, option):\n        self._write(IAC + DO + option)\n", "    def _do(self, option):\n        self._three(DO, option)\n\n    def _three(self, verb, option):\n        wire = IAC + verb + option\n        self._write(wire)\n"),
+    Silent("drain-through-private-helper", T, "            if state.him.onResult is not None:\n                d = state.him.onResult\n                state.him.onResult = None\n                d.errback(reason)\n",
+           "            self._abandon(state.him, reason)\n", more=[(T, "    def applicationDataReceived(self, data):\n        \"\"\"\n        Called with application-level data.", "    def _abandon(self, side, reason):\n        waiting = side.onResult\n        if waiting is None:\n            return\n        side.onResult = None\n        waiting.errback(reason)\n\n    def applicationDataReceived(self, data):\n        \"\"\"\n        Called with application-level data.")]),
     Silent("forget-option-when-fully-idle", T, "        d.callback(True)\n        self.disableLocal(option)\n\n    dontMap = {",
            "        d.callback(True)\n        self.disableLocal(option)\n        if not state.us.negotiating and not state.him.negotiating and state.him.state == \"no\":\n            self.options.pop(option, None)\n\n    dontMap = {"),
     Silent("options-cleared-after-drain", T, "                d = state.him.onResult\n                state.him.onResult = None\n                d.errback(reason)\n\n    def applicationDataReceived",
